@@ -4,6 +4,7 @@ import json
 import os
 
 FKBASE = 0x110000
+SS3_ASSIGNED = "ABCDEFHPQRS" "MX" "jklmnopqrstuvwxy"     # self-test only: which recorded items are judged at all
 MODN = ["shift", "alt", "ctrl", "super", "hyper", "meta", "caps", "num"]
 
 
@@ -129,13 +130,15 @@ def binding_selftest(c, specs, td, rejects):
     bad = {r["scn"] for r in rejects}
     meta = json.load(open(os.path.join(td, "meta.json")))
     scns = {}
+    have = set()                # every kind of event a corruption needs is among the loaded scenarios
     for i in range(meta["shards"]):
         with open(os.path.join(td, "shard%02d.ndjson" % i)) as f:
             for line in f:
                 e = json.loads(line)
                 if e["scn"] not in bad:
                     scns.setdefault(e["scn"], []).append(e)
-        if len(scns) > 40:
+                    have.add("then" if e["ev"] == "key" and len(e["then"]) == 1 and len(e["got"]) == 2 else e["ev"])
+        if len(scns) > 40 and have >= {"key", "then", "match", "mstr", "self", "xp"}:
             break
 
     def find(pred):
@@ -155,11 +158,19 @@ def binding_selftest(c, specs, td, rejects):
     def flip_all(v):
         return [not x for x in v]
 
+    def judged_key(e):          # a key item whose outcome the oracle judges (all but SS3 + unassigned final)
+        return e["ev"] == "key" and not (e["enc"]["k"] == "ss3" and not e["then"] and chr(e["enc"]["b"]) not in SS3_ASSIGNED)
+
     muts = {
-        "decode": (lambda e, evs, n: e["ev"] == "key" and len(e["got"]) == 1,
+        "decode": (lambda e, evs, n: judged_key(e) and len(e["got"]) == 1,
                    lambda e: e["got"][0].__setitem__("mods", e["got"][0]["mods"] ^ 2)),
-        "count": (lambda e, evs, n: e["ev"] == "key" and len(e["got"]) == 1,
+        "count": (lambda e, evs, n: judged_key(e) and len(e["got"]) == 1,
                   lambda e: e.__setitem__("other", 1)),
+        # a report behind another one: its event is judged too, and a missing event is noticed
+        "decode-then": (lambda e, evs, n: judged_key(e) and len(e["then"]) == 1 and len(e["got"]) == 2,
+                        lambda e: e["got"][1].__setitem__("mods", e["got"][1]["mods"] ^ 4)),
+        "count-then": (lambda e, evs, n: judged_key(e) and len(e["then"]) == 1 and len(e["got"]) == 2,
+                       lambda e: e["got"].pop()),
         "match": (lambda e, evs, n: e["ev"] == "match", lambda e: e.__setitem__("res", flip_all(e["res"]))),
         "mstr": (lambda e, evs, n: e["ev"] == "mstr", lambda e: e.__setitem__("res", not e["res"])),
         "self": (lambda e, evs, n: e["ev"] == "self" and e["res"] and item_key(evs, n).get("got", [{}])[0].get("type") == 1,
@@ -194,7 +205,7 @@ def binding_selftest(c, specs, td, rejects):
         if line.startswith('"REJECT '):
             r = json.loads(json.loads(line)[7:])
             got.setdefault(r["scn"], r["why"])
-    res = {name: got.get(k) == name for k, name in want.items()}
+    res = {name: got.get(k) == name.replace("-then", "") for k, name in want.items()}
     c.cov["binding_selftest"] = res
     if not res or not all(res.values()):
         raise vcheck.Inconclusive("binding self-test: a corrupted trace was accepted: %s" % res)
@@ -215,8 +226,10 @@ def main(c):
         "character classes and case images of non-ASCII code points are facts computed with Go's unicode tables (ASCII classes are defined in the oracle and the logged facts are checked against them)",
         "grapheme segmentation of multi-code-point text samples (rivo/uniseg inside the library's parser) is trusted base; a literal U+FFFD in the byte stream and invalid UTF-8 belong to C02",
         "the kitty functional-key table, the legacy ctrl mapping and xterm's function-key numbers in specs/keys/KeyCodec.tla were written from the protocol documents",
-        "ESC-prefixed domain: ESC + byte 0x30..0x7f that does not introduce a longer control function (ECMA-48), and ESC + C0 (kitty legacy table); xterm modifyOtherKeys (CSI 27;m;k~) is out of scope",
-        "each report is delivered in one read together with a sentinel report (a lone ESC alone, the sentinel after its event)",
+        "ESC-prefixed domain: ESC + byte 0x20..0x7f other than the introducers O P X [ ] ^ _ (there the bytes alone do not tell Alt+key from a terminal report), and ESC + C0 (kitty legacy table); xterm modifyOtherKeys (CSI 27;m;k~) is out of scope: it is neither a function-key report nor one of the legacy/kitty encodings the property names",
+        "SS3 domain: application cursor keys A-F H, PF1-PF4, and the application keypad finals of xterm's VT220 keypad table (M X j-y); SS3 + any other final (incl. SP and I, keypad Space/Tab, which no keyboard of the kitty key table has) has no specified meaning: exercised, outcome not judged; SS3 with a modifier parameter (ESC O 5 M, xterm modifyKeypadKeys=0) is not in xterm's tables and not judged",
+        "String()/self-match of release events: the property speaks of the chord the user pressed; a release prints no modifiers by design and is not required to match its own description",
+        "each report is delivered in one read together with a sentinel report (a lone ESC alone, the sentinel after its event); pair items deliver two or three reports plus the sentinel in one read",
     ]
     deep = c.tier == "thorough"
     mcs = []
@@ -283,9 +296,10 @@ def main(c):
     mark("confirm+selftest")
     c.cov["phase_end_s"] = phase
     return c.finish(
-        rule="item = one key report injected as bytes into a real Vaxis (encodings: text incl. clusters, C0, ESC+byte, ESC+C0, SS3, "
-             "CSI letter, CSI ~, CSI u with every combination of optional fields; ASCII exhaustively, ~190 sampled code points, every "
-             "functional key; all 256 modifier masks and 3 event types on chosen keys) whose Key event must be one of KeyCodec!Meanings; "
+        rule="item = one key report injected as bytes into a real Vaxis (encodings: text incl. clusters, C0, ESC+byte 0x20-0x7f, ESC+C0, SS3 "
+             "cursor/PF/application-keypad finals, CSI letter, CSI ~, CSI u with every combination of optional fields; ASCII exhaustively, "
+             "~190 sampled code points, every functional key; all 256 modifier masks and 3 event types on chosen keys) whose Key event must be "
+             "one of KeyCodec!Meanings; pair items: two or three reports in one read, one event each; "
              "each item carries Matches probes (binding keys by relation class x aimed masks, all 256 masks on some, full 256x256 grids), "
              "MatchString probes built from the library's own modifier/key names, the self-match, and cross-protocol groups (one chord, "
              "several encodings: equal String() and equal match vectors); distinct = distinct scenario descriptor")
